@@ -179,6 +179,19 @@ def run(chk, replay=None):
     if len(cases) < 1000:
         raise MachineryError('Gen produced %d histories' % len(cases))
     chk.log('Gen: %d histories' % len(cases))
+    if quick:
+        # the quick tier bounds TLC's histories at 3 operations; chains of two different round trips (4 operations) are
+        # added for every source catalog of the model (the trace specification judges them like any other history)
+        trips = [['write', 'load_ascii'], ['to_dict', 'from_dict'], ['write_json', 'load_json'], ['to_df', 'from_df']]
+        srcs = []
+        for c in cases:
+            if c['src'] not in srcs:
+                srcs.append(c['src'])
+        for s_ in srcs:
+            for a in trips:
+                for b in trips:
+                    if a != b:
+                        cases.append({'src': s_, 'hist': a + b})
 
     def fix_src(s):
         return {'evs': list(s['evs']), 'cid': s['cid'], 'name': s['name'], 'region': bool(s['region'])}
